@@ -142,7 +142,7 @@ Explorer.concrete = False
 # ------------------------------------------------------------------ units
 class Unit:
     def __init__(self, name, sym, real=None, bounds=None, regions=(), split=False, max_paths=200000, max_depth=4000,
-                 expect=None, diff=True, query_timeout_ms=20000, budget_s=1500):
+                 expect=None, diff=True, query_timeout_ms=20000, budget_s=None):
         self.name = name
         self.sym = sym  # fn(ex) over module copies
         self.real = real  # fn(ConcreteEx) over the real library (replay + differential); may be None
@@ -156,6 +156,7 @@ class Unit:
         self.budget_s = budget_s  # wall budget of one exploration task (a subtree); exceeding it is inconclusive
 
 
+TASK_BUDGET_S = 1500  # wall budget of one exploration task; check_property lowers it for the quick tier
 _UNITS: list[Unit] = []
 _SEED = 0
 
@@ -170,7 +171,7 @@ def _explore_task(task):
     u = _UNITS[ui]
     e = Explorer(max_paths=u.max_paths, max_depth=u.max_depth, seed=_SEED, query_timeout_ms=u.query_timeout_ms)
     e.export_limit = export
-    e.budget_s = u.budget_s
+    e.budget_s = u.budget_s or TASK_BUDGET_S
     t = time.time()
     try:
         res = e.explore(u.sym, prefixes=prefixes, stop_when_queued=seed_target)
@@ -329,6 +330,8 @@ def write_replay(prop, unit, label, inputs, what):
 def check_property(prop, units, tier, seed, *, explanation, assumptions, stubs=(), bounds=None, canaries=None,
                    extra_checks=(), design_ref="", diff_sample=40):
     """explore all units, replay candidates, apply known findings, write evidence, return exit code"""
+    global TASK_BUDGET_S
+    TASK_BUDGET_S = 400 if tier == "quick" else 1800
     t0 = time.time()
     out = Outcome()
     known = load_known()
